@@ -32,16 +32,30 @@ BidsClauses(ev) ==
 
 MeadowsClauses(ev) ==
   LET d == ParseName(ev.fname)
-      x == MeadowsExpectN(d, ev.i)  g == ev.got IN
+      xs == MeadowsExpectN(d, ev.i)  g == ev.got
+      \* a task listing the same stimuli in another order may be left out (documented) or aligned
+      x == xs IN
   << Cl("enabled", Loadable(d) /\ Len(ev.i.order) >= 3 /\ Range(ev.i.order) = 1..Len(ev.i.order)),
      Cl("name", g.shape = x.shape /\ g.exp = x.exp /\ g.ver = x.ver /\ g.struct = x.struct /\ g.ft = x.ft),
      Cl("conds", g.conds = x.conds),
-     Cl("values", g.vec = x.vec),
-     Cl("assoc", AssocOk([conds |-> g.conds, vec |-> g.vec])),
-     Cl("participant", IF x.shape = "mp1t" THEN g.plist = x.plist ELSE g.participant = x.participant),
-     Cl("task", IF x.shape = "mp1t" THEN g.task = x.task
-                ELSE IF x.shape = "1pmt" THEN g.tpos = x.tpos ELSE TRUE),
-     Cl("task_index", x.shape # "mp1t" => g.task_index = x.task_index) >>
+     Cl("values", g.vec = (IF g.tpos = xs.alt.tpos THEN xs.alt.vec ELSE xs.vec)),
+     Cl("assoc", Len(g.vec) = Len(IF g.tpos = xs.alt.tpos THEN xs.alt.rows ELSE xs.rows)
+                 /\ AssocOk([conds |-> g.conds, vec |-> g.vec,
+                             rows |-> IF g.tpos = xs.alt.tpos THEN xs.alt.rows ELSE xs.rows])),
+     Cl("participant", IF xs.shape = "mp1t" THEN g.plist = xs.plist
+                       ELSE g.participant = (IF g.tpos = xs.alt.tpos THEN xs.alt.participant ELSE xs.participant)),
+     Cl("task", IF xs.shape = "mp1t" THEN g.task = xs.task
+                ELSE IF xs.shape = "1pmt" THEN (g.tpos = xs.tpos \/ g.tpos = xs.alt.tpos) ELSE TRUE),
+     Cl("task_index", xs.shape # "mp1t" =>
+            g.task_index = (IF g.tpos = xs.alt.tpos THEN xs.alt.task_index ELSE xs.task_index)) >>
+
+\* a sequence of look-ups issued on ONE layout object over a family of files
+LayoutClauses(ev) ==
+  << Cl("enabled", \A k \in 1..Len(ev.steps) : ev.steps[k].f \in 1..Len(ev.files)
+                       /\ LookEnabled(ev.steps[k].kind, ev.files[ev.steps[k].f])),
+     Cl("files", \A f \in 1..Len(ev.files) : ev.paths[f] = Format(ev.files[f])),
+     Cl("lookup", \A k \in 1..Len(ev.steps) : LET st == ev.steps[k] IN
+            st.path = Format(Answer(ev.files, st.f, st.kind, st.d, st.s))) >>
 
 SpmClauses(ev) ==
   LET x == Filter(ev.Y, ev.runs) IN
@@ -51,8 +65,8 @@ SpmClauses(ev) ==
      Cl("projection", ev.got = [t \in 1..Len(ev.Y) |-> x[t].num]) >>
 
 DmClauses(ev) ==
-  LET x == DmExpect(ev.i)  g == ev.got IN
-  << Cl("ncols", g.ncols = x.ncols), Cl("mask", g.mask = x.mask), Cl("dof", g.dof = x.dof),
+  LET x == DmExpect([ev.i EXCEPT !.nan = Range(ev.i.nan)])  g == ev.got IN
+  << Cl("ncols", g.ncols = x.ncols), Cl("mask", g.mask = x.mask), Cl("dof", g.dof = x.dof), Cl("masklen", g.masklen = x.ncols),
      Cl("colcond", Len(g.colcond) = Len(x.colcond) /\ Range(g.colcond) = Range(x.colcond)), Cl("normalised", g.norm = 1), Cl("confounds", g.conf = 1) >>
 
 MneClauses(ev) ==
@@ -62,6 +76,7 @@ MneClauses(ev) ==
 
 Clauses(ev) == CASE ev.k = "bids" -> BidsClauses(ev)
                  [] ev.k = "meadows" -> MeadowsClauses(ev)
+                 [] ev.k = "layout" -> LayoutClauses(ev)
                  [] ev.k = "spm" -> SpmClauses(ev)
                  [] ev.k = "dm" -> DmClauses(ev)
                  [] ev.k = "mne" -> MneClauses(ev)
